@@ -250,6 +250,18 @@ func (m *Model) ruleBACKFILL(r *Results) {
 		return
 	}
 	sc := scans[0]
+	// every row that is read is pushed: the loop cannot come round without the push unless an error occurred
+	{
+		var sinks []*ssa.BasicBlock
+		m.eachCall(sc.Fn, func(c ssa.CallInstruction) {
+			if callee := c.Common().StaticCallee(); callee != nil && m.isQueueMethod(callee, "push") {
+				sinks = append(sinks, c.Block())
+			}
+		})
+		if len(sinks) > 0 && inCycle(sc.Call.Block()) {
+			r.check(!m.rowCanBeSkipped(sc, sinks), rule, fnName+" / every row read is pushed", m.instrPos(sc.Call), "a row that was read without error is always enqueued", "the backfill loop can go on to the next row without enqueueing the one it read although no error occurred: that document's current version is missing from the snapshot")
+		}
+	}
 	// the row loop ends only when the rows are exhausted (or on an error): a counter or size test
 	// truncates the snapshot, and the live stream then moves the checkpoint past the missing rows
 	if inCycle(sc.Call.Block()) {
